@@ -50,6 +50,8 @@ impl SharedMemoryLimiter {
     pub fn increase_usage(&self, byte_count: usize) -> Result<(), MemoryLimitExceededError> {
         let previous_usage = self.current_usage.fetch_add(byte_count, Ordering::Relaxed);
         let current_usage = previous_usage + byte_count;
+        #[cfg(feature = "_verif_hooks")]
+        crate::verif::charge(current_usage);
 
         if current_usage > self.max {
             Err(MemoryLimitExceededError)
